@@ -30,10 +30,13 @@ def globalOp (op : String) (args : List String) : Option String :=
           | k+1, acc => do let p ← pProposal; go k (p :: acc)
         let ps ← go n []
         pure (kDie, kNet, inf, ps)) args).map fun (kDie, kNet, inf, ps) =>
-      let vals := ps.map fun
-        | .die w h => dieProposal kDie w h
-        | .alloc w h => allocProposal kNet w h
-        | .net ds => netlistProposal kNet inf ds
+      -- a netlist without any rectangle or positive area proposes NO tolerance (repaired code, /repo 750ac5a:
+      -- `if smallest_distance < math.inf: set_epsilon(...)`): it is not an entry of the history of proposals
+      let vals := ps.filterMap fun
+        | .die w h => some (dieProposal kDie w h)
+        | .alloc w h => some (allocProposal kNet w h)
+        | .net [] => none
+        | .net ds => some (netlistProposal kNet inf ds)
       match runHistory Float.sqrt none vals with
       | none => "none"
       | some e => s!"{sc e.dist} {sc e.area}"
